@@ -73,9 +73,10 @@ structure Dump where
   listing : List (List Seg)    -- one entry per listed field
   deriving Repr
 
-/-- `_dumpstruct(structure, data, offset, color, output)` up to the final string assembly -/
+/-- `_dumpstruct(structure, data, offset, color, output)` up to the final string assembly; the palette handed to `hexdump` is
+    `[] if color else None` (fix F72: without colour no colour code at all reaches the hex part) -/
 def dumpstruct (cls : String) (fields : List DField) (data : Bytes) (offset : Nat) (color : Bool) : Dump :=
   let (pal, ls) := walk color 0 fields
-  { hex := hexdump data (some pal) offset, title := "struct " ++ cls ++ ":", listing := ls }
+  { hex := hexdump data (if color then some pal else none) offset, title := "struct " ++ cls ++ ":", listing := ls }
 
 end Cstruct.Dumpstruct
